@@ -146,12 +146,20 @@ def sentinels : List String :=
     directories that correspond to the request (`stores`, e.g. ["store/upload", "store/cache"]) and no planted
     sentinel was touched.  (Which entry directory inside the store is used is the store's layout: compared
     with the model as a DIFF, not judged here.) -/
-def outsideMon (what seg : String) (changes : String) (stores dirs pfx : List String) : List String × String :=
+def outsideMon (what seg : String) (changes : String) (stores dirs pfx : List String) (bare : Bool := false) :
+    List String × String :=
+  -- in the bare layouts nothing is planted inside or next to the store roots
+  let sentinels := if bare then ["data", "outer-sentinel"] else sentinels
   let entries := (list? changes).filterMap fun e => (str? e).map fun d => (e, (d.drop 1).toString)
   let outside := entries.filter fun (_, p) =>
     sentinels.contains p || !(stores.any fun st => p == st || p.startsWith (st ++ "/"))
-  let pf := if outside.isEmpty then [] else
-    [s!"side=impl key=outside-store-dir {what} {seg} touched files outside its store directory: {listTok (outside.map (·.1))}"]
+  -- the store directories themselves must survive every request
+  let roots := (list? changes).filterMap fun e => (str? e).bind fun d =>
+    if d.startsWith "-" ∧ (d.drop 1).toString ∈ ["store/upload", "store/cache", "store"] then some e else none
+  let pf := (if outside.isEmpty then [] else
+    [s!"side=impl key=outside-store-dir {what} {seg} touched files outside its store directory: {listTok (outside.map (·.1))}"]) ++
+    (if roots.isEmpty then [] else
+    [s!"side=impl key=store-root-removed {what} {seg} removed a store directory itself: {listTok roots}"])
   let strictBad := foreignChanges changes dirs pfx
   (pf, if strictBad.isEmpty then changes else listTok ((list? changes).filter (!strictBad.contains ·)))
 
@@ -159,6 +167,7 @@ def nameStr (n : Str) : String := String.ofList n
 
 structure TagSt where
   stored : List Str := []      -- tags a PUT has stored (decoded names)
+  nonclean : Bool := false     -- cfg layout=bare-*: store roots configured in non-Clean form, nothing but the store dirs around them
 
 /-- directories a tag request may touch for the decoded name `n` -/
 def tagDirs (n : Str) : List String × List String :=
@@ -177,7 +186,7 @@ def stepTag (s : TagSt) (kind : String) (args impl : List String) : Option (TagS
       | .invalid n => if isPut then ([], (tagDirs n).2) else ([], [])
       | .badreq => ([], [])
     let stores := if isPut then ["store/upload", "store/cache"] else if verb = "head" then [] else ["store/cache"]
-    let (pf, chTok) := outsideMon s!"{verb} /tags/" seg changes stores dirs pfx
+    let (pf, chTok) := outsideMon s!"{verb} /tags/" seg changes stores dirs pfx s.nonclean
     match v with
     | .badreq => pure (s, { obs := ["badreq", chTok], branch := verb ++ ".badreq", propfails := pf })
     | .invalid _ =>
@@ -192,7 +201,10 @@ def stepTag (s : TagSt) (kind : String) (args impl : List String) : Option (TagS
         -- FS-level failures (ENAMETOOLONG, ENOTDIR, NUL) follow the implementation
         let cls' := if cls = "ok" ∨ cls = "error" then cls else "ok"
         let s' := if cls = "ok" then { s with stored := n :: s.stored } else s
-        pure (s', { obs := [cls', chTok], branch := verb ++ "." ++ cls', propfails := pf })
+        -- a nested name (the temporary upload entry is created and DELETED below a sub-directory) under a root that
+        -- is not in filepath.Clean form
+        let br := verb ++ "." ++ cls' ++ (if s.nonclean ∧ n.contains '/' then ".nested.nonclean" else "")
+        pure (s', { obs := [cls', chTok], branch := br, propfails := pf })
       else if verb = "head" then
         pure (s, { obs := [cls, chTok], branch := "head.good", propfails := pf })
       else if s.stored.contains n then
@@ -204,7 +216,9 @@ def stepTag (s : TagSt) (kind : String) (args impl : List String) : Option (TagS
         pure (s, { obs := [cls', chTok], branch := verb ++ "." ++ cls', propfails := pf ++ pf2 })
   | _, _, _ => none
 
-def tagMachine : Machine := { σ := TagSt, name := "tagsrv", init := fun _ => some {}, step := stepTag }
+def tagMachine : Machine :=
+  { σ := TagSt, name := "tagsrv", step := stepTag,
+    init := fun cfg => some { nonclean := cfg.any (fun t => t.startsWith "layout=bare") } }
 
 structure OrgSt where
   live : List String := []     -- ids k of started, uncommitted uploads
